@@ -381,3 +381,107 @@ func (p *Program) IfaceContract(m *types.Func) *spec.FuncContract {
 	}
 	return p.Specs.Contracts[n.Obj().Pkg().Path()+"::iface "+n.Obj().Name()+"."+m.Name()]
 }
+
+// ExpandAutoRules applies every `auto <prop> modifies <ghost>` template to all
+// functions (methods, closures) of its package that may modify the ghost and
+// whose last result is an error: functions with an explicit contract get the
+// template's clauses added, the others get a contract consisting of them.
+func (p *Program) ExpandAutoRules(u *Universe) {
+	var rules []*spec.FuncContract
+	for k, c := range p.Specs.Contracts {
+		if strings.HasPrefix(c.Name, "auto:") {
+			rules = append(rules, c)
+			delete(p.Specs.Contracts, k)
+		}
+	}
+	sort.Slice(rules, func(i, j int) bool { return rules[i].Name < rules[j].Name })
+	for _, rule := range rules {
+		parts := strings.Split(rule.Name, ":")
+		ghost := parts[2]
+		srt, ok := p.Specs.Ghosts[ghost]
+		if !ok {
+			p.Warnings = append(p.Warnings, rule.Src+": auto rule names unknown ghost "+ghost)
+			continue
+		}
+		gkey := u.GhostComp(ghost, srt)
+		sp := p.BuildPkg(rule.Pkg)
+		if sp == nil {
+			continue
+		}
+		var fns []*ssa.Function
+		var visit func(f *ssa.Function)
+		visit = func(f *ssa.Function) {
+			if f == nil || len(f.Blocks) == 0 || f.Synthetic != "" {
+				return
+			}
+			fns = append(fns, f)
+			for _, a := range f.AnonFuncs {
+				visit(a)
+			}
+		}
+		var names []string
+		for n := range sp.Members {
+			names = append(names, n)
+		}
+		sort.Strings(names)
+		for _, n := range names {
+			switch x := sp.Members[n].(type) {
+			case *ssa.Function:
+				visit(x)
+			case *ssa.Type:
+				for _, t := range []types.Type{x.Type(), types.NewPointer(x.Type())} {
+					ms := p.SSA.MethodSets.MethodSet(t)
+					for i := 0; i < ms.Len(); i++ {
+						if f := p.SSA.MethodValue(ms.At(i)); f != nil && f.Package() == sp {
+							dup := false
+							for _, g := range fns {
+								if g == f {
+									dup = true
+								}
+							}
+							if !dup {
+								visit(f)
+							}
+						}
+					}
+				}
+			}
+		}
+		for _, f := range fns {
+			res := f.Signature.Results()
+			if res.Len() == 0 || !isErrorType(res.At(res.Len()-1).Type()) {
+				continue
+			}
+			mods, all := p.ModSet(u, f)
+			if !all && !mods[gkey] {
+				continue
+			}
+			key := FuncKey(f)
+			c := p.Specs.Contracts[key]
+			if c == nil {
+				c = &spec.FuncContract{Pkg: rule.Pkg, Name: f.RelString(sp.Pkg), Src: rule.Src,
+					Opts: map[string]string{}, AuxLabels: map[string]bool{}}
+				for _, prm := range f.Params {
+					c.Params = append(c.Params, prm.Name())
+				}
+				p.Specs.Contracts[key] = c
+			}
+			if c.Trusted || c.NoBody {
+				continue
+			}
+			for _, pr := range rule.Props {
+				has := false
+				for _, q := range c.Props {
+					if q == pr {
+						has = true
+					}
+				}
+				if !has {
+					c.Props = append(c.Props, pr)
+				}
+			}
+			c.Ensures = append(c.Ensures, rule.Ensures...)
+			c.Invs = append(c.Invs, rule.Invs...)
+		}
+	}
+}
